@@ -20,6 +20,7 @@ import JdProofs.MapOrder
 import JdProofs.PathSites
 import JdProofs.PathHeapProofs
 import JdProps.C15Heap
+import JdProps.C15Clone
 
 namespace Jd.Props.C15
 open Jd Jd.MapOrder
